@@ -282,6 +282,9 @@ fn check_annotation(rep: &mut Report, h: &History, ah: usize, cfg: &WebAnnoConfi
         }
     };
     rep.distinct(&format!("wellformed/{}/{}/{}", ma.target.kind(), idclass, cfgname));
+    if rep.samples.len() < 3 && !data.is_empty() {
+        rep.sample(json!({"annotation": m.ann_name(ah), "config": cfgname, "exported": out, "parsed_target": parsed["target"], "parsed_body": parsed["body"]}));
+    }
 
     // 2. target
     rep.eval();
